@@ -29,6 +29,7 @@ type HarnessSpec struct {
 	Reach      []string
 	Steps      int
 	Known      []string // labels of known findings this harness may report (informational)
+	ModelOnly  bool     // the harness depends on stubbed library calls: counterexamples cannot be replayed natively and are reported from the model
 	NativeSkip []string // markers whose witnesses depend on stubbed environment events and are not replayed natively
 }
 
@@ -76,6 +77,8 @@ func ParseHarnessFile(path string) (*HarnessFile, error) {
 					switch {
 					case f == "nopanic":
 						hs.NoPanic = true
+					case f == "modelonly":
+						hs.ModelOnly = true
 					case strings.HasPrefix(f, "property="):
 						hs.Property = f[len("property="):]
 					case strings.HasPrefix(f, "reach="):
